@@ -870,6 +870,24 @@ func (env *Env) call(n *ast.CallExpr) (Val, error) {
 		}
 		return Val{T: types.Typ[types.Float64], L: []string{app("to_real", a.one())}}, nil
 	}
+	if dd, ok := fx.e.cs.Defines[fname]; ok {
+		if len(n.Args) != len(dd.Params) {
+			return Val{}, fmt.Errorf("define %s: %d args, want %d", fname, len(n.Args), len(dd.Params))
+		}
+		ne := env
+		for i, p := range dd.Params {
+			a, err := arg(i)
+			if err != nil {
+				return Val{}, err
+			}
+			ne = ne.with(p, a)
+		}
+		body, err := parseSpecExpr(dd.Text)
+		if err != nil {
+			return Val{}, fmt.Errorf("define %s: %v", fname, err)
+		}
+		return ne.eval(body)
+	}
 	if sd, ok := fx.e.specs[fname]; ok {
 		var args []string
 		for i := range n.Args {
